@@ -507,7 +507,13 @@ static int analyze_struct(fb_parser_t *P, fb_compound_type_t *ct)
 
     assert(ct->symbol.kind == fb_is_struct);
 
-    assert(!(ct->symbol.flags & fb_circular_open));
+    if (ct->symbol.flags & fb_circular_open) {
+        /*
+         * Left open by an analysis that failed further down (the error
+         * has been reported): the struct is part of a bad hierarchy.
+         */
+        return -1;
+    }
     if (ct->symbol.flags & fb_circular_closed) {
         return 0;
     }
